@@ -16,7 +16,7 @@ class C01(PipelineProp):
             "the texel grid, pieces >= 2 texels, shuffled, re-oriented, regrouped, painted or not, sub-texel "
             "scaffolds present or absent, texel from 1 bp up), 30% the same with shifted/grown/shrunk/duplicated/"
             "unknown/out-of-range/flipped pieces, 15% arbitrary bait lists (70% of cases); 30% 'straddle' maps: slivers of 1..2 error lengths between long contigs with bait boundaries inside or next to them, abutting or with a small hole / overlap; plus the repository's specimens. "
-            "non-trivial = distinct case on which remapping completed"
+            "plus haplotype tags that differ only in punctuation; the partition is judged on the returned assemblies AND on the AGP/TPF files the CLI writes (read back; no file opened twice). non-trivial = distinct case on which remapping completed"
         )
 
     def gen_case(self, rng):
@@ -24,6 +24,16 @@ class C01(PipelineProp):
             inp, ptx = P.gen_straddle(rng)
             return {"gen": "straddle", "input": inp, "pretext": ptx, "prefix": "SUPER_"}
         inp = P.gen_input(rng)
+        if rng.random() < 0.08:
+            # haplotype tags that differ only in characters a file name would not keep apart
+            # (each is its own haplotype, hence its own output file)
+            ptx, _ = P.gen_pretext(rng, inp, "null")
+            haps = rng.sample(["Hap1", "Hap1?", "Hap 1", "Hap-1", "Hap.1", "HAP_1"], min(len(ptx["scaffolds"]), rng.randint(2, 3)))
+            for sc, h in zip(ptx["scaffolds"], haps):
+                for r in sc["rows"]:
+                    if r[0] == "F":
+                        r[5] = ["Painted", h]
+            return {"gen": "lookalike-haps", "input": inp, "pretext": ptx, "prefix": "SUPER_", "out_name": "asm.1.agp"}
         x = rng.random()
         if x < 0.55:
             ptx, _ = P.gen_pretext(rng, inp, "edit")
@@ -40,7 +50,7 @@ class C01(PipelineProp):
     def oracle(self, case, obs):
         if "err" in obs:
             return None  # "ends in an error, never in a silently wrong assembly"
-        return P.conservation(case["input"], obs)
+        return P.conservation(case["input"], obs) or P.file_level(case, obs)
 
 
 PROP = C01()
